@@ -298,8 +298,8 @@ func checkPositions(n ast.Node) (err error) {
 
 // parenthesize adds the parentheses that Go's syntax needs where substituting
 // a metavariable built a tree that go/parser never produces without a
-// ParenExpr: "*x" or "2 * x" with x = "a + b", "x.f" with x = "-a", "chan T"
-// with T = "<-chan int".
+// ParenExpr: "*x" or "2 * x" with x = "a + b", "x.f" with x = "-a" or
+// "[]int", "x(y)" with x = "func()", "chan T" with T = "<-chan int".
 //
 // go/printer prints most of them on its own ("*(a + b)" and "chan (<-chan
 // int)" it does not), but a later change of the same run matches against the
@@ -327,13 +327,27 @@ func parenthesize(file *ast.File) {
 		}
 		return x
 	}
-	// operand of a selector, index, slice, call or type assertion
-	primary := func(x ast.Expr) ast.Expr {
-		switch x.(type) {
-		case *ast.BinaryExpr, *ast.UnaryExpr, *ast.StarExpr:
+	// function of a call
+	callee := func(x ast.Expr) ast.Expr {
+		switch x := x.(type) {
+		case *ast.BinaryExpr, *ast.UnaryExpr, *ast.StarExpr, *ast.FuncType:
 			return paren(x)
+		case *ast.ChanType:
+			if x.Dir == ast.RECV {
+				return paren(x)
+			}
 		}
 		return x
+	}
+	// operand of a selector, index, slice or type assertion. What
+	// follows a type that ends in a type would be read as part of that
+	// one: "[]int.f" is a slice of "int.f".
+	primary := func(x ast.Expr) ast.Expr {
+		switch x.(type) {
+		case *ast.ArrayType, *ast.MapType, *ast.ChanType, *ast.FuncType:
+			return paren(x)
+		}
+		return callee(x)
 	}
 
 	ast.Inspect(file, func(n ast.Node) bool {
@@ -344,6 +358,10 @@ func parenthesize(file *ast.File) {
 			n.Y = binary(n.Y, prec+1)
 		case *ast.UnaryExpr:
 			n.X = unary(n.X)
+			if _, ok := n.X.(*ast.ChanType); ok && n.Op == token.ARROW {
+				// "<-chan int" is a channel type, not a receive.
+				n.X = paren(n.X)
+			}
 		case *ast.StarExpr:
 			n.X = unary(n.X)
 		case *ast.SelectorExpr:
@@ -357,7 +375,7 @@ func parenthesize(file *ast.File) {
 		case *ast.TypeAssertExpr:
 			n.X = primary(n.X)
 		case *ast.CallExpr:
-			n.Fun = primary(n.Fun)
+			n.Fun = callee(n.Fun)
 		case *ast.ChanType:
 			if v, ok := n.Value.(*ast.ChanType); ok && n.Dir == ast.SEND|ast.RECV && v.Dir == ast.RECV {
 				n.Value = paren(n.Value)
